@@ -115,9 +115,16 @@ def run(ctx):
     ctx.clause = 'D2'
     fi = ctx.func('dedrift.dedrift')
     T.NOTNONE.add('drift_rate')
-    agree_ref(ctx, fi, REF_DEDRIFT, 'dedrift: row i shifted by round(|d| i dt/df), trimmed to the common band, fch1 per orientation and '
-              'drift sign, too-steep rates rejected', what=('return', 'calls', 'raises', 'substores', 'loopstores'), typed_params=TP,
-              no_inline=NI)
+    # (the row shifts can be written as a loop of row stores, as in the reference, or as one vectorised gather: when the
+    #  statements are organised differently the store-by-store comparison is not decisive -- the formulas below still are)
+    from . import common as _common
+    _common.RESTRUCTURED_UNDECIDED[0] = 'fewer'
+    try:
+        agree_ref(ctx, fi, REF_DEDRIFT, 'dedrift: row i shifted by round(|d| i dt/df), trimmed to the common band, fch1 per orientation '
+                  'and drift sign, too-steep rates rejected', what=('return', 'calls', 'raises', 'substores', 'loopstores'),
+                  typed_params=TP, no_inline=NI)
+    finally:
+        _common.RESTRUCTURED_UNDECIDED[0] = False
     T.NOTNONE.discard('drift_rate')
     agree_ref(ctx, fi, REF_DEDRIFT, 'dedrift(drift_rate=None): rate taken from metadata, else rejected', what=('raises',),
               typed_params=TP, no_inline=NI, args={'drift_rate': NONE})
@@ -126,10 +133,14 @@ def run(ctx):
     c = [e for e in I.events if e.kind == 'call' and e.data.get('name') == 'frame.Frame.from_data']
     ctx.require(c, 'dedrift no longer builds its result with from_data')
     mo = 'int(np.round(abs(drift_rate) * fr.tchans * fr.dt / fr.df))'
-    ctx.formula('FORMULA', 'de-drifted fch1 == frequency of the first/last kept column', fi, c[0].data['bound'].get('fch1', NONE),
-                ctx.spec(fi, f'ITE(fr.ascending, ITE(drift_rate >= 0, fr.fmin, fr.fmin + {mo} * fr.df), '
-                             f'ITE(drift_rate >= 0, fr.fmax - {mo} * fr.df, fr.fmax))', typed_params=TP), node=c[0].node,
-                construct='from_data(fch1=...) [dedrift]')
+    # (compared where the result is actually built: not for rates the function has already rejected)
+    reached = c[0].cond()
+    nothing = lift('<not reached>')
+    ctx.formula('FORMULA', 'de-drifted fch1 == frequency of the first/last kept column', fi,
+                T.mk_ite(reached, c[0].data['bound'].get('fch1', NONE), nothing),
+                T.mk_ite(reached, ctx.spec(fi, f'ITE(fr.ascending, ITE(drift_rate >= 0, fr.fmin, fr.fmin + {mo} * fr.df), '
+                                               f'ITE(drift_rate >= 0, fr.fmax - {mo} * fr.df, fr.fmax))', typed_params=TP), nothing),
+                node=c[0].node, construct='from_data(fch1=...) [dedrift]')
 
     # ---- D3 integrate
     ctx.clause = 'D3'
